@@ -7,6 +7,7 @@ import (
 	"archive/tar"
 	"bytes"
 	"compress/gzip"
+	"context"
 	"database/sql"
 	"encoding/base64"
 	"encoding/json"
@@ -18,12 +19,14 @@ import (
 	"net/http/httptest"
 	"net/url"
 	"os"
+	"os/exec"
 	"path"
 	"path/filepath"
 	"regexp"
 	"sort"
 	"strings"
 	"testing/fstest"
+	"time"
 
 	"github.com/sarchlab/akita/v5/daisen2"
 	"github.com/sarchlab/akita/v5/sourcefs"
@@ -435,7 +438,7 @@ func runArchive(in input, c *hx.Case) error {
 	return nil
 }
 
-func runSource(in input, c *hx.Case) error {
+func runSourceDirect(in input, c *hx.Case) error {
 	dir, err := os.MkdirTemp("", "verif-c39-")
 	if err != nil {
 		return err
@@ -490,7 +493,7 @@ func runSource(in input, c *hx.Case) error {
 	src, oerr := sourcefs.OpenTraceSource(db)
 	if oerr != nil {
 		c.Obs = map[string]any{"error": oerr.Error()}
-		c.Coq = hx.App("CSource", hx.L(rowsT), hx.None())
+		c.Coq = hx.App("CSource", hx.L(rowsT), "SRejected")
 		c.Tags = append(c.Tags, "source:rejected")
 		return nil
 	}
@@ -509,9 +512,109 @@ func runSource(in input, c *hx.Case) error {
 		served = len(keys)
 	}
 	c.Obs = map[string]any{"served_keys": served, "files": src.Files, "roots": src.Roots}
-	c.Coq = hx.App("CSource", hx.L(rowsT), hx.Some(hx.L(obs)))
+	c.Coq = hx.App("CSource", hx.L(rowsT), hx.App("SServed", hx.L(obs)))
 	c.Tags = append(c.Tags, fmt.Sprintf("source:%d-rows", len(in.Rows)))
 	c.Nontrivial = served > 0
+	return nil
+}
+
+// runSource opens the trace source in a child process (this binary, `replay`), so that a
+// load-time crash of the walk (a fatal stack overflow is not a recoverable panic) becomes
+// an observation instead of killing the run.
+func runSource(in input, c *hx.Case) error {
+	if os.Getenv("VERIF_C39_CHILD") != "" {
+		return runSourceDirect(in, c)
+	}
+	dir, err := os.MkdirTemp("", "verif-c39-child-")
+	if err != nil {
+		return err
+	}
+	defer os.RemoveAll(dir)
+	f := filepath.Join(dir, "in.json")
+	if err := os.WriteFile(f, hx.J(map[string]any{"case": in}), 0o644); err != nil {
+		return err
+	}
+	exe, err := os.Executable()
+	if err != nil {
+		return err
+	}
+	ctx, cancel := context.WithTimeout(context.Background(), 120*time.Second)
+	defer cancel()
+	cmd := exec.CommandContext(ctx, exe, "replay", "C39", "-file", f, "-out", filepath.Join(dir, "out"))
+	cmd.Env = append(os.Environ(), "VERIF_C39_CHILD=1")
+	var stderr bytes.Buffer
+	cmd.Stderr = &stderr
+	runErr := cmd.Run()
+	if runErr == nil {
+		b, rerr := os.ReadFile(filepath.Join(dir, "out", "cases.jsonl"))
+		if rerr != nil {
+			return rerr
+		}
+		var rec struct {
+			Observed   any      `json:"observed"`
+			Nontrivial bool     `json:"nontrivial"`
+			Tags       []string `json:"tags"`
+		}
+		if err := json.Unmarshal(bytes.SplitN(b, []byte("\n"), 2)[0], &rec); err != nil {
+			return err
+		}
+		v, rerr := os.ReadFile(filepath.Join(dir, "out", "cases_0.v"))
+		if rerr != nil {
+			return rerr
+		}
+		// the child's case term: the line "(0, <term>)]."
+		txt := string(v)
+		i := strings.Index(txt, "(0, ")
+		j := strings.LastIndex(txt, ")].")
+		if i < 0 || j < i {
+			return fmt.Errorf("cannot read the child's case term")
+		}
+		c.Coq = txt[i+4 : j]
+		c.Obs, c.Nontrivial, c.Tags = rec.Observed, rec.Nontrivial, rec.Tags
+		return nil
+	}
+	// the child died: rebuild the rows for the model here (ReadArchive only) and record the crash
+	var rowsT []string
+	seen := map[string]bool{}
+	for _, r := range in.Rows {
+		var es []ent
+		for _, e := range r.Entries {
+			key := path.Join(string(r.Root), string(e.Name))
+			if byte(e.Type) == tar.TypeReg && seen[key] {
+				continue
+			}
+			if byte(e.Type) == tar.TypeReg {
+				seen[key] = true
+			}
+			es = append(es, e)
+		}
+		gztar, err := buildTar(es)
+		if err != nil {
+			return err
+		}
+		files, err := sourcefs.ReadArchive(gztar)
+		if err != nil {
+			return err
+		}
+		keys := make([]string, 0, len(files))
+		for k := range files {
+			keys = append(keys, k)
+		}
+		sort.Strings(keys)
+		fsT := make([]string, len(keys))
+		for i, k := range keys {
+			fsT[i] = hx.T(pstr(k), pbytes(files[k]))
+		}
+		rowsT = append(rowsT, hx.T(pbytes(r.Root), hx.L(fsT)))
+	}
+	tail := stderr.String()
+	if len(tail) > 300 {
+		tail = tail[:300]
+	}
+	c.Obs = map[string]any{"crashed": runErr.Error(), "stderr_head": tail}
+	c.Coq = hx.App("CSource", hx.L(rowsT), "SCrashed")
+	c.Tags = append(c.Tags, "source:crashed")
+	c.Nontrivial = true
 	return nil
 }
 
